@@ -142,6 +142,10 @@ def lean_step(prop: str, extra_modules: list[str] | None = None, thorough: bool 
             res.ok = False
             res.broken.append(f"T1 table extraction failed: {e!r}")
             res.log += f"extract_tables: {e!r}\n"
+        try:
+            _run([sys.executable, str(VERIF / "gen_root.py")], cwd=VERIF, timeout=60)
+        except Exception as e:  # noqa: BLE001
+            res.log += f"gen_root: {e!r}\n"
         mods = [f"Rpft.Props.{prop}"] + (extra_modules or [])
         cmd = ["lake", "build"] + mods + ["rpft_driver"]
         res.cmds.append("cd lean && " + " ".join(cmd))
